@@ -212,6 +212,35 @@ theorem C11c_refines_protocol (S : CTy) (w n L : Nat) (v : Int) (s : St)
     rw [cutsOf_ideal S w n s.c hsafe k (by omega), cutsOf_ideal S w n s.c hsafe (k + 1) (by omega)]
     exact part_mono _ _ k
 
+/-- **The decision uses the flag as it is after the last decrement.**  The model accepts
+    `finish()` taking the `set_error` / `set_value` branch (`bulk.decide`, logged in the branch
+    actually taken) only when every participant has decremented and is outside the index loop,
+    and only with `err = true` exactly when some call threw: a decision made from a value of
+    `exception_thrown` read *before* the decrement — while a call that throws later is still
+    running — is rejected, and so is a `set_value` after a throw. -/
+theorem C11c_decision_after_last_decrement (S : CTy) (w n L : Nat) (v : Int) (s s' : St)
+    (h : Reachable S w n L v s) (k : Nat) (err : Bool) (hd : step s (.decide k err) = some s') :
+    s.p.remaining = 0 ∧ (∀ u, s.lp u = .out) ∧ (err = true ↔ s.thrown ≠ []) := by
+  obtain ⟨hs, hL, log, hl⟩ := h
+  simp only [step] at hd
+  split at hd
+  next hg =>
+    obtain ⟨hph, _, _, ho, _⟩ := hg
+    rcases full_of_accepted hs hL hl with ⟨h0, _⟩ | ⟨h2, _⟩ | ⟨_, _, hi⟩
+    · omega
+    · omega
+    · obtain ⟨h0, hex⟩ := hi.pinv.outc err ho
+      have hout := lp_out_of_outcome s hi err ho
+      refine ⟨h0, hout, ?_⟩
+      have c := hi.thrCnt
+      have z : sumTo s.w (fun u => isThrew (s.lp u)) = 0 :=
+        sumTo_eq_zero (fun u _ => by rw [hout u]; rfl)
+      rw [z, Nat.add_zero] at c
+      have t := hi.pinv.thr
+      rw [hex, t, ← c]
+      cases s.thrown <;> simp
+  next => simp at hd
+
 /-! ## Non-vacuity -/
 
 /-- `bulk<int>(3)` on 2 workers, predecessor on worker 1, value pack 7: chunk size 1, queues
@@ -221,7 +250,7 @@ def exampleLog : List Ev :=
   [.plan 1, .spawn 0, .task 1, .task 0, .load 0 0 0 1, .cas 0 0 true 1 1, .chunk 0 0, .call 0 0 7,
    .load 1 1 1 3, .cas 1 1 true 2 3, .ret 0, .chunk 1 1, .call 1 1 7, .ret 1, .load 0 0 1 1,
    .load 0 1 2 3, .cas 0 1 true 2 2, .chunk 0 2, .call 0 2 7, .ret 0, .load 1 1 2 2, .load 1 0 1 1,
-   .dec 1 false, .load 0 1 2 2, .dec 0 true, .sig false 7]
+   .dec 1 false, .load 0 1 2 2, .dec 0 true, .decide 0 false, .sig false 7]
 
 example : (runLog step (init CTy.i32 2 3 1 7) exampleLog).map (fun s => (s.done, s.calls)) =
     some ([(false, 7)], [(2, 7), (1, 7), (0, 7)]) := by decide +kernel
@@ -231,10 +260,23 @@ example : (runLog step (init CTy.i32 2 3 1 7) exampleLog).map (fun s => (s.done,
 def exampleThrowLog : List Ev :=
   [.plan 1, .spawn 0, .task 1, .task 0, .load 0 0 0 1, .cas 0 0 true 1 1, .chunk 0 0, .call 0 0 7,
    .throw 0, .load 1 1 1 3, .exc 0, .cas 1 1 true 2 3, .dec 0 false, .chunk 1 1, .call 1 1 7, .ret 1,
-   .load 1 1 2 3, .cas 1 1 true 3 3, .chunk 1 2, .call 1 2 7, .throw 1, .dec 1 true, .sig true 0]
+   .load 1 1 2 3, .cas 1 1 true 3 3, .chunk 1 2, .call 1 2 7, .throw 1, .dec 1 true, .decide 1 true, .sig true 0]
 
 example : (runLog step (init CTy.i32 2 3 1 7) exampleThrowLog).map (fun s => (s.done, s.thrown)) =
     some ([(true, 0)], [2, 0]) := by decide +kernel
+
+/-- the stale decision (worker 1 read `exception_thrown = false` before its decrement, worker 0's
+    call threw meanwhile) is rejected: after the last decrement only `decide _ true` is accepted -/
+example : (runLog step (init CTy.i32 2 3 1 7)
+    [.plan 1, .spawn 0, .task 1, .task 0, .load 0 0 0 1, .cas 0 0 true 1 1, .chunk 0 0, .load 1 1 1 3,
+     .cas 1 1 true 2 3, .chunk 1 1, .call 1 1 7, .ret 1, .load 1 1 2 3, .cas 1 1 true 3 3, .chunk 1 2,
+     .call 1 2 7, .ret 1, .load 1 1 3 3, .load 1 0 1 1, .call 0 0 7, .throw 0, .exc 0, .dec 0 false,
+     .dec 1 true, .decide 1 false]) = none ∧
+    (runLog step (init CTy.i32 2 3 1 7)
+    [.plan 1, .spawn 0, .task 1, .task 0, .load 0 0 0 1, .cas 0 0 true 1 1, .chunk 0 0, .load 1 1 1 3,
+     .cas 1 1 true 2 3, .chunk 1 1, .call 1 1 7, .ret 1, .load 1 1 2 3, .cas 1 1 true 3 3, .chunk 1 2,
+     .call 1 2 7, .ret 1, .load 1 1 3 3, .load 1 0 1 1, .call 0 0 7, .throw 0, .exc 0, .dec 0 false,
+     .dec 1 true, .decide 1 true, .sig true 0]).isSome = true := by decide +kernel
 
 /-- a failed compare-exchange (the word changed between load and CAS) retries on the observed word -/
 example : (runLog step (init CTy.i32 2 3 0 7)
